@@ -97,7 +97,7 @@ PROPS = {
         "assumptions": []},
     "C08": rt(300, 5000, ["script"],
         "add/remove histories of GET/POST/HEAD/OPTIONS/TRACE/BOGUS on three patterns; after every step HEAD/GET/OPTIONS probes and a random handler script (0-6 events: Set/Add/Del header, WriteHeader, Write 0/1/2/13/1000) run under GET and HEAD on a non-sniffing writer",
-        props=["C08head", "C17"],
+        props=["C08head", "C17", "C04hist"], extra_runs=[("C16", "C08g", 0.5)],
         level_text="Theorems over ALL handler scripts (induction with a simulation invariant): C08_head_no_body, C08_head_same_status_and_headers (guard: no header mutation/WriteHeader after the first un-preceded Write), C08_head_content_length, C08_get_body; C08_late_event_refutes_unguarded shows the guard is necessary (known finding F20). C08_reserved_rejected: OPTIONS/HEAD/(TRACE)/unknown methods are always rejected.",
         level_note="the writer is the documented http.ResponseWriter contract (first WriteHeader/Write freezes status+headers), tied to the harness's own recording writer; HEAD iff GET over histories is judged by the oracle on the abstract table.",
         trust=["http.ResponseWriter contract modelled (Model/Http.v), net/http itself not verified"]),
